@@ -13,7 +13,8 @@ Inductive decomp :=
 | DTt (cores : list (tensor Z))
 | DTr (cores : list (tensor Z))
 | DTtm (cores : list (tensor Z))
-| DP2 (w : option (tensor Z)) (fs ps : list (tensor Z)).
+| DP2 (w : option (tensor Z)) (fs ps : list (tensor Z))
+| DP2Q (w : option (tensor Q)) (fs ps : list (tensor Q)).   (* rational entries (dyadic): the validator only (sub-orthonormal projections) *)
 
 Inductive view :=
 | VValidate | VTensor | VUnfolded (m : nat) | VVec | VNorm | VMatrix | VSlice (i : nat) | VSlices
@@ -71,6 +72,7 @@ Definition run (d : decomp) (v : view) : out :=
   | DTtm cs, VEin (VUnfolded m) => rt (ttm_to_unfolded_einsum Zops cs m)
   | DTtm cs, VEin VVec => rt (ttm_to_vec_einsum Zops cs)
   | DTtm cs, VEin VNorm => rnorm (ttm_to_tensor_einsum Zops cs)
+  | DP2Q w fs ps, VValidate => match validate_parafac2 Qops w fs ps with Ok (s, r) => OSS s r | Err => OErr end
   | DP2 w fs ps, VValidate => match validate_parafac2 Zops w fs ps with Ok (s, r) => OSS s r | Err => OErr end
   | DP2 w fs ps, VSlice i => rt (parafac2_to_slice Zops w fs ps i)
   | DP2 w fs ps, VSlices => match parafac2_to_slices Zops w fs ps with Ok l => OL l | Err => OErr end
@@ -98,8 +100,88 @@ Definition out_eqb (model obs : out) : bool :=
   | _, _ => false
   end.
 
-Definition case := (nat * decomp * list (view * out))%type.
+(* ---------- wrapper objects: a history = construction from the decomposition's contents, then views and __setitem__ calls ---------- *)
+Inductive ostep :=
+| SView (v : view) (o : out)
+| SSetW (w : option (tensor Z))          (* CPTensor: obj[0] = w *)
+| SSetF (fs : list (tensor Z))           (* CPTensor / TuckerTensor: obj[1] = fs *)
+| SSetCore (c : tensor Z)                (* TuckerTensor: obj[0] = core *)
+| SSetK (k : nat) (c : tensor Z).        (* TTTensor / TRTensor / TTMatrix: obj[k] = core *)
+
+Inductive obj :=
+| OCp (o : cp_obj (F:=Z)) | OTk (o : tk_obj (F:=Z)) | OTt (o : ch_obj (F:=Z)) | OTr (o : ch_obj (F:=Z)) | OTtm (o : ch_obj (F:=Z))
+| OP2 (o : p2_obj (F:=Z)).
+
+Definition obj_new (d : decomp) : res obj :=
+  match d with
+  | DCp w fs _ => rbind (cp_new Zops w fs) (fun o => Ok (OCp o))
+  | DTucker c fs _ _ => rbind (tucker_new c fs) (fun o => Ok (OTk o))
+  | DTt cs => rbind (ch_new validate_tt cs) (fun o => Ok (OTt o))
+  | DTr cs => rbind (ch_new validate_tr cs) (fun o => Ok (OTr o))
+  | DTtm cs => rbind (ch_new validate_ttm cs) (fun o => Ok (OTtm o))
+  | DP2 w fs ps => rbind (p2_new Zops w fs ps) (fun o => Ok (OP2 o))
+  | DP2Q _ _ _ => Err
+  end.
+
+(* the call arguments (mask, skip_factor, transpose_factors) are those of the decomposition the history started from *)
+Definition obj_view (d : decomp) (x : obj) (v : view) : out :=
+  match x, v with
+  | OCp o, VValidate => OSR (cpo_shape o) [cpo_rank o]
+  | OCp o, VTensor => rt (cpo_to_tensor Zops o (match d with DCp _ _ m => m | _ => None end))
+  | OCp o, VUnfolded m => rt (cpo_to_unfolded Zops o m)
+  | OCp o, VVec => rt (cpo_to_vec Zops o)
+  | OCp o, VNorm => match cpo_normsq Zops o with Ok n => ONorm (inject_Z n) | Err => OErr end
+  | OTk o, VValidate => OSR (tko_shape o) (tko_rank o)
+  | OTk o, v' => let '(skip, tr) := match d with DTucker _ _ s t => (s, t) | _ => (None, false) end in
+                 run (DTucker (tko_core o) (tko_factors o) skip tr) v'
+  | OTt o, VValidate | OTr o, VValidate | OTtm o, VValidate => OSR (cho_shape o) (cho_rank o)
+  | OTtm o, VEin VValidate => OSR (cho_shape o) (cho_rank o)
+  | OTt o, v' => run (DTt (cho_cores o)) v'
+  | OTr o, v' => run (DTr (cho_cores o)) v'
+  | OTtm o, v' => run (DTtm (cho_cores o)) v'
+  | OP2 o, VValidate => OSS (p2o_shape o) (p2o_rank o)
+  | OP2 o, VSlice i => rt (p2o_to_slice Zops o i)
+  | OP2 o, VSlices => match p2o_to_slices Zops o with Ok l => OL l | Err => OErr end
+  | OP2 o, VTensor => rt (p2o_to_tensor Zops o)
+  | OP2 o, VUnfolded m => rt (rbind (p2o_to_tensor Zops o) (fun t => unfold 0%Z t m))
+  | OP2 o, VVec => rt (rbind (p2o_to_tensor Zops o) tensor_to_vec)
+  | OP2 o, VNorm => rnorm (p2o_to_tensor Zops o)
+  | _, _ => OBad
+  end.
+
+Definition obj_set (x : obj) (s : ostep) : res obj :=
+  match x, s with
+  | OCp o, SSetW w => Ok (OCp (cp_set_weights o w))
+  | OCp o, SSetF fs => Ok (OCp (cp_set_factors o fs))
+  | OTk o, SSetCore c => Ok (OTk (tk_set_core o c))
+  | OTk o, SSetF fs => Ok (OTk (tk_set_factors o fs))
+  | OTt o, SSetK k c => rbind (ch_set o k c) (fun o' => Ok (OTt o'))
+  | OTr o, SSetK k c => rbind (ch_set o k c) (fun o' => Ok (OTr o'))
+  | OTtm o, SSetK k c => rbind (ch_set o k c) (fun o' => Ok (OTtm o'))
+  | _, _ => Err
+  end.
+
+Fixpoint run_steps (d : decomp) (x : obj) (steps : list ostep) : bool :=
+  match steps with
+  | [] => true
+  | SView v o :: r => out_eqb (obj_view d x v) o && run_steps d x r
+  | s :: r => match obj_set x s with Ok x' => run_steps d x' r | Err => false end
+  end.
+
+(* constructed = the wrapper constructor succeeded (it must succeed exactly when the model's validation accepts) *)
+Definition agree_obj (d : decomp) (constructed : bool) (steps : list ostep) : bool :=
+  match obj_new d with
+  | Ok x => constructed && run_steps d x steps
+  | Err => negb constructed
+  end.
+
+Inductive case :=
+| CViews (id : nat) (d : decomp) (vs : list (view * out))
+| CObj (id : nat) (d : decomp) (constructed : bool) (steps : list ostep).
 Definition agree (c : case) : bool :=
-  let '(_, d, vs) := c in forallb (fun vo => out_eqb (run d (fst vo)) (snd vo)) vs.
-Definition ident (c : case) : nat := let '(i, _, _) := c in i.
+  match c with
+  | CViews _ d vs => forallb (fun vo => out_eqb (run d (fst vo)) (snd vo)) vs
+  | CObj _ d k steps => agree_obj d k steps
+  end.
+Definition ident (c : case) : nat := match c with CViews i _ _ => i | CObj i _ _ _ => i end.
 Definition failing := failing_ids agree ident.
